@@ -95,6 +95,11 @@ def judge_state(start_s, s, root):
         vd = equiv.same_solutions(start_s, s) if s[0] == "=" else equiv.same_function(start_s, s)
         if not vd.same:
             out.append(("not-equivalent-to-start", f"{SG.show(start_s)} ~> {SG.show(s)} differ at {vd.witness}"))
+        elif s[0] != "=":
+            from . import c01
+            stress = c01.stress_evaluate(start_s, s, root)
+            if stress:
+                out.append(("not-equivalent-to-start-under-evaluate", stress))
     return out
 
 
